@@ -200,7 +200,7 @@ func c07Sched(c *fw.Ctx) {
 			c.HarnessError("C07 %s: %s", off.Name, d)
 		}
 		if st.Deadlines > 0 {
-			c.HarnessError("C07 %s: %d executions hit the watchdog", off.Name, st.Deadlines)
+			c.HarnessError("C07 %s: %d executions hit the watchdog (first at schedule %v)", off.Name, st.Deadlines, st.DeadlineAt)
 		}
 		if st.Nondeterministic {
 			c.HarnessError("C07 %s: replaying the default schedule gave a different execution", off.Name)
